@@ -110,7 +110,7 @@ func TestC14(t *testing.T) {
 	checkRegressions(t, id)
 	ev.Rule(id, "rapid-generated multi-package programs with regular and in-package _test.go files (annotated declarations, @ignore comments and violations in any of them) under configurations scan-tests x exclude-paths in {empty, default, 1-3 tokens matching file names, name fragments or directories of the program}. oracles: (i) no diagnostic in a file excluded by the reference skip predicate, never TONL in a test file; (ii) metamorphic: stripping all comments from the excluded files leaves the other files' diagnostics unchanged; (iii) exactness under the configuration: the IMM/CTOR/TONL/PKGO diagnostics equal the model expectation in which annotations of excluded files do not exist and sites in excluded files are silent (with scan-tests on, test files are checked like any other file but never get TONL). non-trivial = an excluded file holds an annotation on a declaration that an analysed file uses, or a file-level/@ignore comment, or a violation site; distinct by (sources, config)")
 	rapid.Check(t, func(rt *rapid.T) {
-		p := proggen.Gen(rt, proggen.GenOpts{Focus: "all", MinPkgs: 1, MaxPkgs: 3, TestFiles: true, Aliases: true, Rich: true})
+		p := proggen.Gen(rt, proggen.GenOpts{Focus: "all", MinPkgs: 1, MaxPkgs: 3, TestFiles: true, XTest: true, Aliases: true, Rich: true})
 		// @ignore comments: sometimes a file-level one in a random file
 		var files []*proggen.File
 		for _, pk := range p.Pkgs {
